@@ -39,7 +39,31 @@ class TlcResult:
 
 _STATS = re.compile(r'^(\d[\d,]*) states generated, (\d[\d,]*) distinct states found')
 _DEPTH = re.compile(r'^The depth of the complete state graph search is (\d+)')
-_COV = re.compile(r'^<(\w+) line \d+, col \d+ to line \d+, col \d+ of module (\w+)>: (\d+):(\d+)')
+_COV = re.compile(r'^<(\w+) line \d+, col \d+ to line \d+, col \d+ of module (\w+)(?: \((\d+) (\d+) (\d+) (\d+)\))?>: (\d+):(\d+)')
+_WRAPPERS = {'Next', 'NextP', 'GenNext', 'TraceNext', 'Step'}
+_CALL = re.compile(r'\b([A-Z][A-Za-z0-9]*)\(')
+_NOT_ACTIONS = {'Defenses', 'TypeOfH', 'PolicyName', 'NeedsAutoName', 'ToString', 'DOMAIN', 'Range', 'SeqsFrom1', 'Len', 'Present', 'Cardinality'}
+_SRC = {}
+
+
+def _action_name(name, module, pos):
+    """Coverage entries of a wrapper (Next) carry the source range of the disjunct: name it after the action called there."""
+    if name not in _WRAPPERS or pos[0] is None:
+        return name
+    if module not in _SRC:
+        try:
+            _SRC[module] = open(os.path.join(SPEC, module + '.tla')).read().split('\n')
+        except OSError:
+            _SRC[module] = []
+    l1, c1, l2, c2 = [int(x) for x in pos]
+    lines = _SRC[module][l1 - 1:l2]
+    if not lines:
+        return name
+    lines = list(lines)
+    lines[-1] = lines[-1][:c2]
+    lines[0] = lines[0][c1 - 1:] if len(lines) > 1 else lines[0][c1 - 1:]
+    calls = [c for c in _CALL.findall(' '.join(lines)) if c not in _NOT_ACTIONS]
+    return calls[-1] if calls else name
 _SIMSTAT = re.compile(r'(\d[\d,]*) states checked')
 _PROGRESS = re.compile(r'^Progress\(\d+\).*?: ([\d,]+) states generated.*?([\d,]+) distinct states found')
 
@@ -62,7 +86,7 @@ def decode_json_line(line):
 
 def run_tlc(module, cfg, *, workers=None, simulate=None, depth=None, seed=None, env=None,
             timeout=600, on_json=None, on_raw=None, coverage=False, extra=None, deadlock=False, allow_timeout=False,
-            dfid=None, keep_tail=60):
+            dfid=None, keep_tail=60, stop_after=None):
     """Run TLC on spec/<module>.tla with spec/<cfg>. on_json(value) is called for every JSON line printed by
     PrintT(ToJson(..)). Returns TlcResult. Raises MachineryError for anything that is not a clean run or a
     property violation."""
@@ -97,6 +121,7 @@ def run_tlc(module, cfg, *, workers=None, simulate=None, depth=None, seed=None, 
     proc = subprocess.Popen(cmd, cwd=SPEC, env=e, stdout=subprocess.PIPE, stderr=subprocess.STDOUT,
                             text=True, bufsize=1 << 20)
     timed_out = False
+    stopped = False
     in_violation = False
     vio_lines = []
     try:
@@ -106,6 +131,10 @@ def run_tlc(module, cfg, *, workers=None, simulate=None, depth=None, seed=None, 
                 proc.kill()
                 break
             if line.startswith('"{') or line.startswith('"['):
+                if stop_after is not None and res.json_lines >= stop_after:
+                    stopped = True
+                    proc.kill()
+                    break
                 if on_raw is not None:
                     res.json_lines += 1
                     on_raw(line)
@@ -137,7 +166,9 @@ def run_tlc(module, cfg, *, workers=None, simulate=None, depth=None, seed=None, 
                 continue
             m = _COV.match(line)
             if m:
-                res.coverage[m.group(1)] = (int(m.group(3)), int(m.group(4)))
+                an = _action_name(m.group(1), m.group(2), m.groups()[2:6])
+                old = res.coverage.get(an, (0, 0))
+                res.coverage[an] = (old[0] + int(m.group(7)), old[1] + int(m.group(8)))
                 continue
             if simulate is not None:
                 m = _SIMSTAT.search(line)
@@ -160,6 +191,8 @@ def run_tlc(module, cfg, *, workers=None, simulate=None, depth=None, seed=None, 
     res.wall = time.time() - t0
     if res.violation:
         res.violation = '\n'.join(vio_lines[:200])
+        return res
+    if stopped:
         return res
     if timed_out:
         if allow_timeout:
